@@ -1,7 +1,7 @@
 (* evaluators for C02's decision model (Model/Protocol.v) and its tie to the whole-transfer
    machines (Model/FaultTie.v, Model/Transfer.v)
 
-   recv_file_verdict proto size lines dec            -> A | N
+   recv_file_verdict proto size lines dec early      -> A<md5 of what reached the file> | N
      lines  D:<hex frame>[:<hex chunk>|:!] / M:<hex digest> / K / O  joined by ","
      dec    protocol >= 2: what the REAL decoder stack made of the frames in front of the first
             finish flag (hex, "-" = empty, "!" = error); the model's [decode] returns it
@@ -21,7 +21,7 @@ let ft_deq (a : n list) (b : n list) = a = b
 let ft_nat i = let rec go acc i = if i <= 0 then acc else go (S acc) (i - 1) in go O i
 
 let () =
-  register "recv_file_verdict" (function [proto; size; lines; dec] ->
+  register "recv_file_verdict" (function [proto; size; lines; dec; early] ->
       let proto = int_of_string proto in
       let v1tab = ref [] in
       let ls = List.map (fun t -> match String.split_on_char ':' t with
@@ -36,11 +36,12 @@ let () =
       let v =
         if proto >= 2 then
           let decode _ = if dec = "!" then None else Some (bytes_of_hex dec) in
-          Protocol.recv_v2 ft_md5 ft_deq decode (z_of_string size) [] ls
+          let early = if early = "-" then None else Some (ft_nat (int_of_string early)) in
+          Protocol.recv_v2 ft_md5 ft_deq decode early (z_of_string size) [] ls
         else
           let decode1 fr = match List.assoc_opt fr !v1tab with Some r -> r | None -> None in
           Protocol.recv_v1 ft_md5 ft_deq decode1 (ft_nat (List.length ls + 1)) (z_of_string size) [] ls in
-      (match v with Protocol.Accept _ -> "A" | _ -> "N")
+      (match v with Protocol.Accept w -> "A" ^ Digest.to_hex (Digest.string (ft_str_of_bytes w)) | _ -> "N")
     | _ -> "?args");
   register "send_file_verdict" (function [proto; size; mine; sent; acks] ->
       let proto = int_of_string proto in
@@ -63,13 +64,13 @@ let () =
      cfg    proto:binary:directory:overwrite:ctype:upload   as in transfer_transcript
      msgs   the messages DELIVERED to the real receiver after the fault(s), typed by the tolerant
             parser, joined by ",":  U:<n> NUM | P:<hex> NAME plain | J:<id>:<isdir>:<archive>:<size>:<hex rel .>
-            NAME record | Z:<n> SIZE | C:<0|1> COMP | D:<hex> DATA | M:<hex> MD5 | X EXIT | K | F fail | O other
+            NAME record | Z:<n> SIZE | C:<0|1> COMP | D:<hex> DATA | M:<hex> MD5 | X:<hex names +> EXIT | K | F fail | O other
      zdec   mid>content pairs joined by ";" (hex): what the REAL zstd decoder made of a stream
      unzl   raw>inflated pairs (protocol 1, base64 mode): what the REAL zlib inflater made of a payload
      result OUT=<canonical tokens the receiver wrote>|SAVED=<path:md5,...>|END=<D:names | F | U>|V=<0|1>
    fault_sender cfg table dflt entries acks
      entries as in transfer_transcript
-     acks   delivered to the real sender: I:<n> | A:<len>:<step> | S:<hex raw>:<hex json name | !>:<json size> | X | K | F | O
+     acks   delivered to the real sender: I:<n> | A:<len>:<step> | S:<hex raw>:<hex json name | !>:<json size> | X:<hex names joined by +> | K | F | O
      result OUT=<canonical tokens the sender wrote>|END=<D:names | F | U>
 
    Canonical tokens leave out what depends on timing: the saved step of an ack, the final acks
@@ -159,7 +160,7 @@ let () =
           | ["C"; b] -> Transfer.TrComp (bool_of b)
           | ["D"; f] -> Transfer.TrData (bytes_of_hex f)
           | ["M"; d] -> Transfer.TrMd5 (bytes_of_hex d)
-          | ["X"] -> Transfer.TrExit []
+          | "X" :: _ -> Transfer.TrExit []
           | ["K"] -> Transfer.TrKeepAlive
           | ["F"] -> Transfer.TrFail
           | _ -> Transfer.TrSuccInt N0 (* nothing the receiver ever expects: it fails on it, as the real one does on an unparsable line *)
@@ -173,10 +174,31 @@ let () =
           p ^ ":" ^ Digest.to_hex (Digest.string (ft_str_of_bytes s.FaultTie.fv_content))) saved in
       let v = List.for_all (fun s -> match FaultTie.ft_verdict ft_md5 ft_deq zdecomp unzl cfg s with
           | Protocol.Accept w -> w = s.FaultTie.fv_content | _ -> false) saved in
-      let fin = match st.Transfer.rs_phase with
-        | Transfer.RpDone -> "D:" ^ ft_hexs st.Transfer.rs_names
-        | Transfer.RpUnmodelled -> "U"
-        | _ -> "F" in
+      (* trz: an EXIT line that arrives while recvFiles is still at work ends it with a "remote exit" error and
+         serverError prints the client's message, as the regular end (recvExit) does: what the server shows is
+         the client's word.  tsz's client (download) reports its own names. *)
+      let fin =
+        if cfg.Transfer.tc_upload then begin
+          let toks = ft_split ',' msgs in
+          let rec first_exit i = function
+            | [] -> None
+            | t :: tl -> (match String.split_on_char ':' t with
+                | "X" :: names -> Some (i, String.concat ":" names)
+                | _ -> first_exit (i + 1) tl) in
+          match st.Transfer.rs_phase, first_exit 0 toks with
+          | Transfer.RpUnmodelled, _ -> "U"
+          | _, Some (i, names) ->
+            let rec take k l = if k <= 0 then [] else match l with [] -> [] | x :: t -> x :: take (k - 1) t in
+            let (stp, _) = FaultTie.ft_feed ft_md5 ft_deq zdecomp unzl cfg dest (Transfer.tr_receiver_init f0 []) (take i ms) in
+            (match stp.Transfer.rs_phase with
+             | Transfer.RpFail | Transfer.RpDone -> "F"
+             | Transfer.RpUnmodelled -> "U"
+             | _ -> "D:" ^ names)
+          | _, None -> "F"
+        end else (match st.Transfer.rs_phase with
+            | Transfer.RpDone -> "D:" ^ ft_hexs st.Transfer.rs_names
+            | Transfer.RpUnmodelled -> "U"
+            | _ -> "F") in
       Printf.sprintf "OUT=%s|SAVED=%s|END=%s|V=%s" (String.concat " " toks) (String.concat "," sv) fin (str_of_bool v)
     | _ -> "?args");
   register "fault_sender" (function [cfg; table; dflt; entries; acks] ->
@@ -209,7 +231,17 @@ let () =
       let step st m = Transfer.tr_sender h ft_deq zcomp zl cfg st m in
       let (st0, outs0) = Transfer.tr_sender_init cfg ess in
       let st = ref st0 and outs = ref [outs0] in
+      (* tsz: an EXIT line that arrives while sendFiles is still at work ends it with a "remote exit" error,
+         and serverError prints the client's message exactly as the regular end does (recvExit): what the
+         server shows is the client's word in both cases *)
+      let shown = ref None in
       List.iter (fun t ->
+          (match String.split_on_char ':' t with
+           | "X" :: names when !shown = None && not cfg.Transfer.tc_upload ->
+             (match !st.Transfer.ss_phase with
+              | Transfer.SpFail | Transfer.SpDone | Transfer.SpUnmodelled -> ()
+              | _ -> shown := Some (String.concat ":" names))
+           | _ -> ());
           let m : n list Transfer.tr_msg = match String.split_on_char ':' t with
             | ["I"; k] -> Transfer.TrSuccInt (n_of_int (int_of_string k))
             | ["A"; l; s] -> Transfer.TrSuccAck (n_of_int (int_of_string l), n_of_int (int_of_string s))
@@ -223,7 +255,7 @@ let () =
                  else Transfer.TrSuccName (bytes_of_hex raw)
                | Transfer.SpMd5 -> Transfer.TrSuccDigest (bytes_of_hex raw)
                | _ -> Transfer.TrNum N0)
-            | ["X"] -> Transfer.TrExit []
+            | "X" :: _ -> Transfer.TrExit []
             | ["K"] -> Transfer.TrKeepAlive
             | ["F"] -> Transfer.TrFail
             | _ -> Transfer.TrNum N0 (* nothing the sender ever expects *) in
@@ -231,9 +263,15 @@ let () =
           st := st'; outs := o :: !outs) (ft_split ',' acks);
       let all = List.concat (List.rev !outs) in
       let toks = ft_canon_s (Transfer.tr_pipeline cfg) cfg.Transfer.tc_binary all in
-      let fin = match !st.Transfer.ss_phase with
-        | Transfer.SpDone -> "D:" ^ ft_hexs !st.Transfer.ss_names
-        | Transfer.SpUnmodelled -> "U"
-        | _ -> "F" in
+      let fin =
+        if cfg.Transfer.tc_upload then
+          (match !st.Transfer.ss_phase with
+           | Transfer.SpDone -> "D:" ^ ft_hexs !st.Transfer.ss_names
+           | Transfer.SpUnmodelled -> "U"
+           | _ -> "F")
+        else (match !shown, !st.Transfer.ss_phase with
+            | _, Transfer.SpUnmodelled -> "U"
+            | Some names, _ -> "D:" ^ names
+            | None, _ -> "F") in
       Printf.sprintf "OUT=%s|END=%s" (String.concat " " toks) fin
     | _ -> "?args")
